@@ -67,4 +67,20 @@ def requests_for(app, rng, g, want_success=0.75):
                 best = (op, r.status)
                 break
         out.append(best)
+    # scripted additions: the FIRST recording of an aggregate uuid (the INSERT that can lose a duplicate-key race and
+    # is retried by _set_aggregates), on both sides of 1.19 (with / without the provider-generation compare-and-swap),
+    # with another association kept and one dropped
+    v = gen.View(app.dump())
+    live = [u for u in gen.RPS if u in v.rps]
+    for i, mv in enumerate((39, 19, 18, 1)):
+        if not live:
+            break
+        u = live[i % len(live)]
+        fresh = ['af%02d%04d-0000-0000-0000-000000000000' % (i, rng.randrange(10 ** 4)),
+                 'ae%02d%04d-0000-0000-0000-000000000000' % (i, rng.randrange(10 ** 4))]
+        op = {'op': 'aggs_set', 'mv': mv, 'uuid': u, 'gen': v.rps[u]['gen'] if mv >= 19 else None,
+              'aggs': fresh[:1 + i % 2] + [gen.AGGS[0]]}
+        r = ops.apply_real(app, op)
+        app.restore(snap)
+        out.append((op, r.status))
     return out
